@@ -214,6 +214,9 @@ def run_tlc(module, cfg, scratch, workers=None, extra=None, timeout=600, env=Non
     m = re.search(r'Action property (\S+) is violated', out)
     if m:
         res['violated'] = m.group(1)
+    m = re.search(r'Temporal property (\S+) was violated', out)
+    if m:
+        res['violated'] = res.get('violated') or m.group(1)
     if 'Temporal properties were violated' in out:
         res['violated'] = res.get('violated') or 'temporal'
     res['ok'] = ('Model checking completed. No error has been found' in out) or ('Finished computing initial states' in out and rc == 0)
